@@ -396,3 +396,22 @@ prop('C11',
      level_text=("Fault-injection sweeps incl. arithmetic-solved wrap-around inputs, structure-aware and raw coverage-guided fuzzing with follow-up operations on every accepted object under ASan/UBSan; exploration."),
      technique="coverage-guided + structure-aware fuzzing (libFuzzer, rapidcheck mutation plans), modular-arithmetic input construction, exhaustive prefix/field sweeps, ASan/UBSan",
      design_ref="DESIGN.md section 3, C11")
+
+prop('C18', extra_flavours=['varZ', 'varP'],
+     quick=dict(sweep=True, pbt=(2400, 500, 12), fuzz=(2400, 500, 3)),
+     thorough=dict(sweep=True, pbt=(240000, 700, 12), fuzz=(120000, 700, 3), stage_timeout=3400),
+     floor=dict(quick=2000, thorough=100000), alloc_cap_mb=128, case_timeout=60,
+     rule=("Scenarios decoded from a tape, six kinds: (0) VOL creation from 0..5 generated files + reopen listing + extraction; (1) CLM creation from 0..4 generated WAVs (chunks before/after the data) "
+           "+ listing + every extracted WAV; (2) maps: a DEFAULT-CONSTRUCTED Map written as is, generated maps parsed then dumped field by field and re-written, edited maps, saved games; (3) bitmaps "
+           "from the three factory overloads and from parsed files, dumped, written and flipped; (4) custom tileset written and re-loaded; (5) PRT parsed, every field incl. the optional frame bytes "
+           "dumped, re-written, plus a value-initialised empty ArtFile written. The driver (ASan build) runs each scenario THREE times: in a child built with -ftrivial-auto-var-init=zero whose heap "
+           "blocks are pre-filled with 0x00, in a child built with -ftrivial-auto-var-init=pattern whose heap blocks are pre-filled with 0xD7 (MALLOC_PERTURB_ set, stack scribbled with other bytes, "
+           "other working directory and address layout, VOL/CLM inputs listed in reverse order and spelled './...'), and in-process under ASan's own malloc fill. Each run emits every output byte "
+           "string in hex and a canonical text dump of every parsed structure; the three emissions must be byte-identical. Non-trivial = scenario that serialises at least one header record built "
+           "from a local/temporary object and at least one non-empty container; distinct by emission hash."),
+     sweep_what="12 fixed tapes per scenario kind (incl. the default-constructed map in all four sub-modes)",
+     assumptions=["two poison patterns plus ASan's fill sample the space of memory states thinly: a value that is undefined but coincides under all three is invisible", "a default-initialised (not value-initialised) ArtFile/BitmapFile is a caller error and not exercised"],
+     title="Serialised bytes and parsed values depend only on the logical input",
+     level_text=("Metamorphic/differential testing: the same generated scenario in three differently built and differently poisoned executions must emit identical bytes and dumps; exploration, thin sampling of memory states."),
+     technique="metamorphic differential property-based testing across differently-initialised builds/processes (rapidcheck + libFuzzer driving twin child processes)",
+     design_ref="DESIGN.md section 3, C18")
